@@ -136,6 +136,8 @@ def harnesses(tier):
         ("rh-mem-2x2", "rh-mem", [["A", "B"], ["B", "A"]], b2),
         ("rh-mem-3x1", "rh-mem", [["A"], ["B"], ["C"]], b2),
         ("rh-disk-2x1", "rh-disk", [["A"], ["B"]], b),
+        ("rh-disk-2x1-same", "rh-disk", [["A"], ["A"]], b),
+        ("rh-disk-2x1-same-fingerprint", "rh-disk", [["A"], ["A2"]], b2),
         ("rrg-mem-2x1", "rrg-mem", [["A"], ["B"]], b),
         ("auto-cache-2x1", "auto-cache", [["A"], ["B"]], b),
         # bytecode granularity inside the functions that read-modify-write
